@@ -582,6 +582,16 @@ func genClientControl(rnd *tr.Rand, w *tr.Writer, id string) {
 			r.do("call", tr.I(rnd.Intn(2)), "dial", "0", "none", "0", "none")
 		}
 		r.trafficSome(rnd.Intn(2))
+		if rnd.Chance(40) {
+			// a handler answers Shutdown: one loop leaves, the client is still to be stopped -- the first Client.Stop
+			// is not "already in shutdown"
+			if lc := r.liveConns(); len(lc) > 0 {
+				c := lc[rnd.Intn(len(lc))]
+				r.do("traffic", tr.I(c[0]), tr.I(c[1]), "shutdown", "0", "none")
+				w.Tag("client-handler-shutdown-before-stop")
+				r.do("probe")
+			}
+		}
 		r.do("call", "2", "clistop") // not stopped yet: not issued (disabled)
 		r.do("clientstop")
 		r.do("poke")
